@@ -31,7 +31,13 @@ func refExt(p string) string {
 	return tail[j:]
 }
 
-const pathLen = 10
+// pathLen: bound on the length of path strings (quick 10, thorough 12).
+var pathLen = func() int {
+	if vrt.Thorough() {
+		return 12
+	}
+	return 10
+}()
 
 // runParseArgs calls the real ParseArgs. Under the symbolic executor flag.* and os.Getenv are
 // stubs fed by vrt.SetEnv; natively (replay) the same values are installed into the real flag
